@@ -1,0 +1,16 @@
+//go:build verif
+
+package math
+
+import "math/big"
+
+// VerifExponentHook lets the external verification harness (/verif) supply the client's Diffie-Hellman exponent
+// (to steer a key exchange into numeric corner cases); nil or a nil result = draw normally.
+var VerifExponentHook func() *big.Int
+
+func verifExponent() *big.Int {
+	if VerifExponentHook != nil {
+		return VerifExponentHook()
+	}
+	return nil
+}
